@@ -22,7 +22,7 @@ structure Inv (v : Variant) (s : State) : Prop where
   handbackKnown : ∀ (k : Nat) (c : Conn) (m : Msg), s.conns[k]? = some c → c.spc = .handback m → c.known = true
   deadKnown : ∀ m, InFlight s m → ∀ j ∈ m.dead, knownAt s j = true
   readyFresh : ∀ (k : Nat) (c : Conn) (m : Msg), s.conns[k]? = some c →
-    (c.spc = .ready m ∨ (v = .asFound ∧ c.spc = .atGot m)) → k ∉ m.dead
+    (c.spc = .ready m ∨ c.spc = .atGot m) → k ∉ m.dead
   attemptsFresh : ∀ m k, (m, k) ∈ s.attempts → k ∉ m.dead
 
 def good (v : Variant) (s : State) (a : Action) : Prop := v = .repaired ∨ timely s a = true
@@ -87,8 +87,8 @@ macro "inv_case" h:ident : tactic => `(tactic|
      | (cases $h:ident; done)
      | (cases $h:ident
         constructor
-        all_goals simp only [setConn, closeConn, knownAt, InFlight, List.getElem?_set, List.length_set, isCur]
-        all_goals grind [Inv, InFlight, knownAt, SPc.hand, good, timely, isCur, afterGot])))
+        all_goals simp only [setConn, closeConn, knownAt, InFlight, List.getElem?_set, List.length_set, isCur, afterDequeue]
+        all_goals grind [Inv, InFlight, knownAt, SPc.hand, good, timely, isCur, afterDequeue])))
 
 
 
@@ -321,13 +321,13 @@ theorem inv_sTopGo {v cap s s' k} (hi : Inv v s) (_hg : good v s (.sTopGo k)) (h
   inv_case h
 
 theorem inv_sTakeFail {v cap s s' k} (hi : Inv v s) (_hg : good v s (.sTakeFail k)) (h : step v cap s (.sTakeFail k) = some s') : Inv v s' := by
-  inv_case h
+  cases v <;> inv_case h
 
 theorem inv_sNoFail {v cap s s' k} (hi : Inv v s) (_hg : good v s (.sNoFail k)) (h : step v cap s (.sNoFail k) = some s') : Inv v s' := by
   inv_case h
 
 theorem inv_sTakeQ {v cap s s' k} (hi : Inv v s) (_hg : good v s (.sTakeQ k)) (h : step v cap s (.sTakeQ k) = some s') : Inv v s' := by
-  inv_case h
+  cases v <;> inv_case h
 
 theorem inv_sTickClosed {v cap s s' k} (hi : Inv v s) (_hg : good v s (.sTickClosed k)) (h : step v cap s (.sTickClosed k) = some s') : Inv v s' := by
   inv_case h
@@ -342,7 +342,7 @@ theorem inv_sIdleClose {v cap s s' k} (hi : Inv v s) (_hg : good v s (.sIdleClos
   inv_case h
 
 theorem inv_sInnerFail {v cap s s' k} (hi : Inv v s) (_hg : good v s (.sInnerFail k)) (h : step v cap s (.sInnerFail k) = some s') : Inv v s' := by
-  inv_case h
+  cases v <;> inv_case h
 
 theorem inv_sInnerDone {v cap s s' k} (hi : Inv v s) (_hg : good v s (.sInnerDone k)) (h : step v cap s (.sInnerDone k) = some s') : Inv v s' := by
   inv_case h
@@ -406,5 +406,57 @@ theorem inv_step {v cap s s' a} (hi : Inv v s) (hg : good v s a) (h : step v cap
   | sWriteFail k => exact inv_sWriteFail hi hg h
   | sRequeue k => exact inv_sRequeue hi hg h
   | sFailClose k => exact inv_sFailClose hi hg h
+
+theorem inv_init (v : Variant) : Inv v init := by
+  constructor <;> simp [init, InFlight, knownAt]
+
+theorem inv_initNoIdle (v : Variant) : Inv v initNoIdle := by
+  constructor <;> simp [initNoIdle, InFlight, knownAt]
+
+/-- schedules on which the invariant is maintained: all schedules of the repaired code, the timely
+schedules of the code as found -/
+def GoodFrom (v : Variant) (cap : Nat) (s : State) (acts : List Action) : Prop :=
+  v = .repaired ∨ TimelyFrom v cap s acts
+
+theorem inv_runFrom {v cap} : ∀ (acts : List Action) (s s' : State), Inv v s → GoodFrom v cap s acts →
+    runFrom v cap s acts = some s' → Inv v s'
+  | [], s, s', hi, _, h => by simp only [runFrom] at h; cases h; exact hi
+  | a :: as, s, s', hi, hg, h => by
+    simp only [runFrom] at h
+    split at h
+    · cases h
+    · rename_i s1 hs1
+      have hga : good v s a := by
+        rcases hg with hg | hg
+        · exact Or.inl hg
+        · exact Or.inr hg.1
+      have hgr : GoodFrom v cap s1 as := by
+        rcases hg with hg | hg
+        · exact Or.inl hg
+        · right
+          have := hg.2
+          rw [hs1] at this
+          exact this
+      exact inv_runFrom as s1 s' (inv_step hi hga hs1) hgr h
+
+theorem inv_run {v cap acts s} (hg : GoodFrom v cap init acts) (h : run v cap acts = some s) : Inv v s :=
+  inv_runFrom acts init s (inv_init v) hg h
+
+theorem run_reachable {v cap} : ∀ (acts : List Action) (s s' : State), Reachable v cap s →
+    runFrom v cap s acts = some s' → Reachable v cap s'
+  | [], s, s', hr, h => by simp only [runFrom] at h; cases h; exact hr
+  | a :: as, s, s', hr, h => by
+    simp only [runFrom] at h
+    split at h
+    · cases h
+    · rename_i s1 hs1
+      exact run_reachable as s1 s' (Reachable.step a hr hs1) h
+
+/-- every reachable state of the repaired code satisfies the invariant -/
+theorem reachable_inv_repaired {cap s} (h : Reachable .repaired cap s) : Inv .repaired s := by
+  induction h with
+  | init => exact inv_init _
+  | initNoIdle => exact inv_initNoIdle _
+  | step a _ hs ih => exact inv_step ih (Or.inl rfl) hs
 
 end Tars.ClientConn
